@@ -94,6 +94,7 @@ class _Flow:
             self.params.append(a.kwarg.arg)
         self.defs = {}        # name -> [(value nodes, condition nodes)]
         self.stores = []      # (container ref node, key node, value node, conds, stmt)
+        self.uses = []        # (expression node, condition nodes) for every evaluated statement-level expression
         self._block(fn.body, [])
 
     def _bind(self, target, value, conds):
@@ -113,6 +114,7 @@ class _Flow:
             self._bind(target.value, value, conds)
 
     def _walrus(self, expr, conds):
+        self.uses.append((expr, list(conds)))
         for n in ast.walk(expr):
             if isinstance(n, ast.NamedExpr):
                 self._bind(n.target, n.value, conds)
@@ -144,6 +146,7 @@ class _Flow:
                 self._block(st.body, conds + [st.test])
                 self._block(st.orelse, conds + [st.test])
             elif isinstance(st, ast.For):
+                self.uses.append((st.iter, list(conds)))
                 self._bind(st.target, st.iter, conds)
                 self._block(st.body, conds + [st.iter])
                 self._block(st.orelse, conds)
@@ -165,21 +168,105 @@ class _Flow:
                 continue
 
 
-def classify(fn, name):
+def _returns_of(h):
+    out = []
+    for n in ast.walk(h):
+        if isinstance(n, (ast.FunctionDef, ast.Lambda)) and n is not h:
+            continue
+        if isinstance(n, ast.Return):
+            out.append(n.value)
+    return out
+
+
+def injective_params(e, fl, helpers, depth=0, pseudo=()):
+    """names among fl.params (and `pseudo` names) whose value the expression e determines: built from them with constructors
+    that lose nothing (tuple / list displays and concatenations, bytes/tuple/int/str wrappers, .n / .coeffs, element-wise
+    images `tuple(g(c) for c in p)` with g injective, calls of module-level helpers whose every non-None return is injective)"""
+    if depth > 6 or e is None:
+        return set()
+    if isinstance(e, ast.Name):
+        if e.id in pseudo:
+            return {e.id}
+        if e.id in fl.params and e.id not in fl.defs:
+            return {e.id}
+        ds = fl.defs.get(e.id, [])
+        if len(ds) == 1 and len(ds[0][0]) == 1:
+            return injective_params(ds[0][0][0], fl, helpers, depth + 1, pseudo)
+        return set()
+    if isinstance(e, ast.Starred):
+        return injective_params(e.value, fl, helpers, depth + 1, pseudo)
+    if isinstance(e, (ast.Tuple, ast.List)):
+        out = set()
+        for x in e.elts:
+            out |= injective_params(x, fl, helpers, depth + 1, pseudo)
+        return out
+    if isinstance(e, ast.BinOp) and isinstance(e.op, ast.Add):
+        return injective_params(e.left, fl, helpers, depth + 1, pseudo) | injective_params(e.right, fl, helpers, depth + 1, pseudo)
+    if isinstance(e, ast.Attribute) and e.attr in INJECTIVE_ATTRS:
+        return injective_params(e.value, fl, helpers, depth + 1, pseudo)
+    if isinstance(e, ast.Call) and isinstance(e.func, ast.Name) and not e.keywords:
+        if e.func.id in INJECTIVE_CALLS and len(e.args) == 1:
+            a = e.args[0]
+            if isinstance(a, (ast.GeneratorExp, ast.ListComp)) and len(a.generators) == 1 and not a.generators[0].ifs \
+                    and isinstance(a.generators[0].target, ast.Name):
+                g = a.generators[0]
+                c = g.target.id
+                if c in injective_params(a.elt, fl, helpers, depth + 1, tuple(pseudo) + (c,)):
+                    return injective_params(g.iter, fl, helpers, depth + 1, pseudo)
+                return set()
+            return injective_params(a, fl, helpers, depth + 1, pseudo)
+        h = (helpers or {}).get(e.func.id)
+        if h is not None and not any(isinstance(a, ast.Starred) for a in e.args):
+            hfl = _Flow(h)
+            hparams = [x.arg for x in h.args.posonlyargs + h.args.args]
+            rets = [r for r in _returns_of(h) if not (r is None or (isinstance(r, ast.Constant) and r.value is None))]
+            if not rets or len(e.args) > len(hparams):
+                return set()
+            inj = None
+            for r in rets:
+                ir = injective_params(r, hfl, helpers, depth + 1)
+                inj = ir if inj is None else (inj & ir)
+            out = set()
+            for pn in inj or ():
+                i = hparams.index(pn)
+                if i < len(e.args):
+                    out |= injective_params(e.args[i], fl, helpers, depth + 1, pseudo)
+            return out
+    return set()
+
+
+def helper_may_return_none(e, fl, helpers):
+    """the key expression is a call (possibly through one local name) of a helper that can return None"""
+    if isinstance(e, ast.Name) and len(fl.defs.get(e.id, [])) == 1:
+        e = fl.defs[e.id][0][0][0]
+    if isinstance(e, ast.Call) and isinstance(e.func, ast.Name) and (helpers or {}).get(e.func.id) is not None:
+        h = helpers[e.func.id]
+        rs = _returns_of(h)
+        falls_off = not (h.body and isinstance(h.body[-1], (ast.Return, ast.Raise)))
+        return falls_off or any(r is None or (isinstance(r, ast.Constant) and r.value is None) for r in rs)
+    return False
+
+
+def classify(fn, name, helpers=None):
     """decide the memo discipline of function `fn` (ast.FunctionDef) for the shared container called `name`.
+    `helpers`: module-level functions by name (key construction may be delegated to one).
     returns (kind, detail) with kind in {'complete', 'history', 'undecided', 'unread'}"""
     fl = _Flow(fn)
     reads = []     # key nodes
     read_exprs = []
+    read_nodes = []
     for n in ast.walk(fn):
         if isinstance(n, ast.Call) and isinstance(n.func, ast.Attribute) and n.func.attr == "get" and _is_ref(n.func.value, name) and n.args:
             reads.append(n.args[0])
             read_exprs.append(n)
+            read_nodes.append(n)
         elif isinstance(n, ast.Subscript) and isinstance(n.ctx, ast.Load) and _is_ref(n.value, name):
             reads.append(n.slice)
             read_exprs.append(n)
+            read_nodes.append(n)
         elif isinstance(n, ast.Compare) and len(n.ops) == 1 and isinstance(n.ops[0], (ast.In, ast.NotIn)) and _is_ref(n.comparators[0], name):
             reads.append(n.left)
+            read_nodes.append(n)
     stores = [s for s in fl.stores if _is_ref(s[0], name)]
     if not reads:
         return "unread", "no keyed read"
@@ -226,6 +313,54 @@ def classify(fn, name):
         src = injective_source(c)
         if src is not None:
             covered.add(src)
+        covered |= injective_params(c, fl, helpers)
+    if helper_may_return_none(K, fl, helpers):
+        # None is the helper's "no key" marker: it must never be stored under
+        def guarded(conds):
+            for cnd in conds:
+                for k in ast.walk(cnd):
+                    if isinstance(k, ast.Compare) and len(k.ops) == 1 and isinstance(k.ops[0], ast.IsNot) \
+                            and isinstance(k.comparators[0], ast.Constant) and k.comparators[0].value is None \
+                            and _dump(k.left) == _dump(K):
+                        return True
+            return False
+        if not all(guarded(st[3]) for st in stores):
+            covered = set()
+
+    # parameters pinned to one value by a condition that dominates every read and every store (`hash_function is sha256`)
+    def conjuncts(e, depth=0):
+        if isinstance(e, ast.BoolOp) and isinstance(e.op, ast.And):
+            for v in e.values:
+                yield from conjuncts(v, depth)
+        elif isinstance(e, ast.Name) and e.id not in fl.params and len(fl.defs.get(e.id, [])) == 1 and depth < 3:
+            yield from conjuncts(fl.defs[e.id][0][0][0], depth + 1)
+        else:
+            yield e
+
+    def pins_of(conds):
+        out = set()
+        for c in conds:
+            for k in conjuncts(c):
+                if isinstance(k, ast.Compare) and len(k.ops) == 1 and isinstance(k.ops[0], (ast.Is, ast.Eq)):
+                    for a, b in ((k.left, k.comparators[0]), (k.comparators[0], k.left)):
+                        if isinstance(a, ast.Name) and a.id in fl.params and a.id not in fl.defs \
+                                and not any(isinstance(n, ast.Name) and (n.id in fl.params or n.id in fl.defs) for n in ast.walk(b)):
+                            out.add(a.id)
+        return out
+
+    def conds_of_read(rx):
+        for e, conds in fl.uses:
+            if any(n is rx for n in ast.walk(e)):
+                return conds
+        return None
+    pin_sets = []
+    for rx in read_nodes:
+        cs = conds_of_read(rx)
+        pin_sets.append(pins_of(cs) if cs is not None else set())
+    for _c, _k, _v, conds, _st in stores:
+        pin_sets.append(pins_of(conds))
+    pinned = set.intersection(*pin_sets) if pin_sets else set()
+    covered |= pinned
 
     seen = set()
 
@@ -337,7 +472,7 @@ def first_read(fn, name):
     return None
 
 
-EVICTIONS = {"clear", "pop", "popitem"}
+EVICTIONS = {"clear", "pop", "popitem", "move_to_end"}      # evictions and LRU reordering: hits become misses at most
 
 
 def transparent_memo(repo, f, name):
@@ -366,5 +501,6 @@ def transparent_memo(repo, f, name):
             return False, "its contents are iterated over"
         if isinstance(n, ast.Return) and n.value is not None and _is_ref(n.value, name):
             return False, "the table itself is returned"
-    kind, detail = classify(f.node, name)
+    helpers = {n: g.node for n, g in f.module.functions.items()}
+    kind, detail = classify(f.node, name, helpers)
     return kind == "complete", detail
